@@ -76,7 +76,7 @@ flagged canonical. -/
 theorem dec_enc {p : Ptr} (hv : Valid p) : dec (enc p) = .ok (p, true) := by
   have henc := enc_eq p hv.size_pos
   unfold dec
-  rw [List.take_of_length_le hv.short]
+  rw [if_neg (by have := hv.short; omega)]
   unfold decodeBuf
   have hne : (enc p).isEmpty = false := by rw [henc]; simp
   simp only [hne]
@@ -100,7 +100,7 @@ theorem dec_enc {p : Ptr} (hv : Valid p) : dec (enc p) = .ok (p, true) := by
 
 /-- the empty pointer round-trips too (`enc` maps it to the empty file) -/
 theorem dec_enc_empty : dec (enc emptyPtr) = .ok (emptyPtr, true) := by
-  simp [enc, emptyPtr, dec, decodeBuf]
+  simp [enc, emptyPtr, dec, decodeBuf, cut]
 
 /-- non-vacuity: a concrete valid pointer with one extension -/
 def sampleOid : Bytes := List.replicate 64 97
